@@ -20,7 +20,7 @@ DEADLINE = {'quick': 120, 'thorough': 1200}
 QUICK_SAMPLE_COST = 60.0
 
 
-def catalogue(ctx, cmod, cfn, cparams, prime=False):
+def catalogue(ctx, cmod, cfn, cparams, prime=False, probe=False):
     m = importlib.import_module('props.' + cmod)
     f = getattr(m, cfn)
     ctx.prime_all = prime
@@ -35,6 +35,16 @@ def catalogue(ctx, cmod, cfn, cparams, prime=False):
     ok = mon.coherent()
     if prime:
         ok = ctx.AND(ok, verdict)
+    if probe:
+        # second step of the history: the most recently constructed arrays (the operation's results) answer like fresh ones
+        seen = []
+        for x in reversed(mon.arrays):
+            if any(x is y for y in seen):
+                continue
+            seen.append(x)
+            if len(seen) > 2:
+                break
+        ok = ctx.AND(ok, *[cat.probe(ctx, x) for x in seen])
     if ctx.sym:
         ctx.eng.obs = None       # the catalogue compares monitors, not the inner harness' observation
     ctx.obs = None
@@ -199,6 +209,8 @@ def templates():
         for prime in (False, True):
             add('cat-%s-%s-%s' % (c['mod'], c['name'], 'primed' if prime else 'fresh'), 'catalogue', 'quick', cost=c['cost'] * 1.2,
                 cmod=c['mod'], cfn=c['fn'], cparams=c['params'], prime=prime)
+    for c in cat.select(max_per_fn=5, max_cost=1.0):
+        add('cat-%s-%s-probed' % (c['mod'], c['name']), 'catalogue', 'quick', cost=c['cost'] * 4, cmod=c['mod'], cfn=c['fn'], cparams=c['params'], prime=False, probe=True)
     for c in cat.select(max_per_fn=40, max_cost=8.0):
         if (c['mod'], c['name']) in qnames:
             continue
